@@ -1,0 +1,21 @@
+//go:build verif
+
+package device
+
+// Second hook file for the C07 (session-key lifecycle) check.  Add-only; build tag verif.
+
+// VerifC07ExpireRetransmitHandshake runs the retransmit-handshake timer callback
+// (expiredRetransmitHandshake) the way the timer does, after presetting the attempts
+// counter: attempts > MaxTimerHandshakes takes the give-up branch, a smaller value the
+// retransmission branch.
+func (device *Device) VerifC07ExpireRetransmitHandshake(pk NoisePublicKey, attempts uint32) bool {
+	device.peers.RLock()
+	peer := device.peers.keyMap[pk]
+	device.peers.RUnlock()
+	if peer == nil {
+		return false
+	}
+	peer.timers.handshakeAttempts.Store(attempts)
+	expiredRetransmitHandshake(peer)
+	return true
+}
